@@ -20,25 +20,25 @@ def apply(dst):
     p = os.path.join(dst, 'src', 'task.rs')
     t = open(p).read()
     t = _insert_after(t, r'pub fn start\(&mut self, id: BuildId, build: &Build\) \{\n',
-                      '        #[cfg(n2_verif)]\n        if crate::work::verif_sched::active() {\n'
+                      '        #[cfg(n2_verif)]\n        if crate::work::verif_sched::verif_active() {\n'
                       '            crate::work::verif_sched::on_start(id);\n            self.running += 1;\n            let _ = build;\n            return;\n        }\n',
                       'task::Runner::start')
     t = _insert_after(t, r'pub fn wait\(&mut self, mut output: impl FnMut\(BuildId, Vec<u8>\)\) -> FinishedTask \{\n',
-                      '        #[cfg(n2_verif)]\n        if crate::work::verif_sched::active() {\n'
+                      '        #[cfg(n2_verif)]\n        if crate::work::verif_sched::verif_active() {\n'
                       '            let _ = &mut output;\n            self.running -= 1;\n            return crate::work::verif_sched::next_finish();\n        }\n',
                       'task::Runner::wait')
     open(p, 'w').write(t)
     p = os.path.join(dst, 'src', 'work.rs')
     t = open(p).read()
     t = _insert_after(t, r'fn check_build_dirty\(&mut self, id: BuildId\) -> anyhow::Result<bool> \{\n',
-                      '        #[cfg(n2_verif)]\n        if verif_sched::cut() {\n'
+                      '        #[cfg(n2_verif)]\n        if verif_sched::verif_cut() {\n'
                       '            let phony = self.graph.builds[id].cmdline.is_none();\n            return Ok(verif_sched::judge(id, phony));\n        }\n',
                       'Work::check_build_dirty')
     t = _insert_after(t, r'fn record_finished\(&mut self, id: BuildId, result: task::TaskResult\) -> anyhow::Result<\(\)> \{\n',
-                      '        #[cfg(n2_verif)]\n        if verif_sched::cut() {\n'
+                      '        #[cfg(n2_verif)]\n        if verif_sched::verif_cut() {\n'
                       '            let _ = &result;\n            verif_sched::on_record(id);\n            return Ok(());\n        }\n',
                       'Work::record_finished')
     t = _insert_after(t, r'fn create_parent_dirs\(&self, ids: &\[FileId\]\) -> anyhow::Result<\(\)> \{\n',
-                      '        #[cfg(n2_verif)]\n        if verif_sched::active() {\n            let _ = ids;\n            return Ok(());\n        }\n',
+                      '        #[cfg(n2_verif)]\n        if verif_sched::verif_active() {\n            let _ = ids;\n            return Ok(());\n        }\n',
                       'Work::create_parent_dirs')
     open(p, 'w').write(t)
